@@ -103,8 +103,10 @@ def run_c13(pid, tier, seed):
     genv = {"GORACE": "log_path=%s halt_on_error=0 exitcode=0" % racelog}
     run_harness(binp, ["storeconc", "--out", hist, "--seed", str(seed), "--count", str(count)], env=genv)
     # heavier stress whose only oracle is the race detector
-    run_harness(binp, ["storeconc", "--out", os.path.join(d, "stress.ndjson"), "--seed", str(seed + 1), "--count", "20" if tier == "quick" else "200",
-                       "--modes", "stress"], env=genv)
+    stressp = os.path.join(d, "stress.ndjson")
+    nstress = 300 if tier == "quick" else 6000
+    run_harness(binp, ["storeconc", "--out", stressp, "--seed", str(seed + 1), "--count", str(nstress), "--modes", "stress"], env=genv)
+    sfails, _, ssumm = judge_histories(d, "TPStore", stressp, pid, shards=2)
     parts = shard_file(hist, 8)
     ok = set()
     import concurrent.futures
@@ -136,6 +138,10 @@ def run_c13(pid, tier, seed):
             if i in ok2:
                 raise ToolFailure("history %d rejected once but accepted by a fresh TLC run" % i)
             violations.append({"property": pid, "family": "store", "clauses": ["linearizable"], "signature": "C13:linearizable", "scenario": scns[i]})
+    if sfails:
+        sscn = load_scenarios(stressp)
+        for scn_id, prop, clauses in sfails[:5]:
+            violations.append({"property": pid, "family": "store", "clauses": clauses, "signature": "C13:quiescent", "scenario": sscn[scn_id]})
     races = glob.glob(racelog + ".*")
     if races:
         with open(races[0]) as f:
@@ -143,7 +149,7 @@ def run_c13(pid, tier, seed):
         violations.append({"property": pid, "family": "store", "clauses": ["raceFree"], "signature": "C13:race", "race_report": txt[:6000], "scenario": None})
     samples = [{"scn": r["scn"], "goroutines": r["cfg"]["g"], "history": r["h"][:30]} for r in list(scns.values())[:2]]
     part = dict(states=states, transitions=transitions, scenarios=len(scns), events=events,
-                hits={"overlapping_operations": overlapping, "stress_runs_under_race_detector": 20 if tier == "quick" else 200},
+                hits={"overlapping_operations": overlapping, "stress_runs_under_race_detector": nstress},
                 violations=violations, known_hits=known_hits, drifts=0, mc_info=mc_info, samples=samples, exported=0,
                 modes="2..6 goroutines x 4..10 operations over 2..8 keys, released from a barrier; -race", count=count)
     return fam_batch.finish(pid, tier, seed, d, t0, [("storeconc", part)])
@@ -162,6 +168,17 @@ def replay(bundle):
     rp = os.path.join(d, "replay.ndjson")
     with open(rp, "w") as f:
         f.write(json.dumps(bundle["scenario"]) + "\n")
+    if bundle["scenario"].get("fam") == "storestress":
+        log("recorded answers of the quiescent store: %s" % json.dumps(bundle["scenario"]["h"]))
+        binp = build_harness(d, race=True)
+        sp = os.path.join(d, "stress.ndjson")
+        run_harness(binp, ["storeconc", "--out", sp, "--seed", "1", "--count", "2000", "--modes", "stress"])
+        sf, _, _ = judge_histories(d, "TPStore", sp, pid, shards=2)
+        if sf:
+            log("VIOLATION property=%s replay=%s (inconsistent quiescent store reproduced in %d of 2000 stress runs)" % (pid, bundle.get("_path", "?"), len(sf)))
+            return 1
+        log("2000 stress runs on the current tree: quiescent store consistent every time")
+        return 0
     if pid == "C14":
         binp = build_harness(d)
         hist = os.path.join(d, "replay_hist.ndjson")
